@@ -78,12 +78,14 @@ PROPS = {
     ),
     "C02": dict(
         title="Built records carry truthful Content-Length, digests and record ids",
-        lean_modules=["Gowarc.Props.C02", "Gowarc.Props.C02e2e"],
+        lean_modules=["Gowarc.Props.C02", "Gowarc.Props.C02e2e", "Gowarc.Props.C02len"],
         audit_namespaces=["Gowarc.Props.C02"],
         n_quick=3000, n_thorough=40000,
         required_theorems=["C02_added_digest", "C02_http_split", "C02_default_digest", "C02_validate_truthful", "C02_build_truthful", "checkDigest_post", "parseBlock_keepsCL",
-                           "C02_validate_payload", "C02_http_payload", "checkDigest_has_other"],
+                           "C02_validate_payload", "C02_http_payload", "checkDigest_has_other",
+                           "C02_length_every_policy", "parseBlock_length", "validateDigest_length", "checkDigest_get_other"],
         model_assumptions=["record ids come from the configured id function; uniqueness of uuid.New is an assumption (randomness), only well-formedness is checked",
+                           "C02_length_every_policy: the Content-Length the builder adds itself equals the number of block bytes that get serialized under EVERY policy setting (spec checking off included), every repair option, every block kind and content (shorter than 2^63 - 2 bytes): through the HTTP-terminator repair (+2), the warc-fields block repair (adjusted in Build, fix 06457a1) and ValidateDigest",
                            "C02_validate_payload: after ValidateDigest (spec warn/fail, default repairs) the WARC-Payload-Digest field is the rendering of the digest of exactly the payload bytes (HTTP: the bytes after the protocol header, C02_http_payload) or a declared value that decodes to it", "see level_note"],
         design_ref="DESIGN.md section 5, C02",
         level_text="Model of Build compared with the implementation on seeded builder inputs x 81 policy combinations x repair flags x algorithms x encodings; the oracle recomputes Content-Length and digests "
